@@ -4,7 +4,7 @@
 using namespace opensmt;
 using namespace ss;
 
-extern "C" void h_analyze() {
+template<int fixed_mode> static void run_analyze() {
     build_state(1);
     // the conflict: a DB clause, all literals false, at least one literal of the current decision level
     const int ck = SS_NV;   // the conflict clause lives in the first non-reason slot
@@ -13,11 +13,8 @@ extern "C" void h_analyze() {
     VASSUME(has_cur);
     assume_sigma_models_db();
     materialize();
-#ifdef SS_MODE
-    int mode = SS_MODE;
-#else
-    int mode = nondet_u8(); VASSUME(mode == 0 || mode == 2);
-#endif
+    int mode = fixed_mode;
+    if (fixed_mode < 0) { mode = nondet_u8(); VASSUME(mode == 0 || mode == 2); }
     S->ccmin_mode = mode;
     // proof logging off: resolutionProof == nullptr (zero storage)
 
@@ -54,14 +51,24 @@ extern "C" void h_analyze() {
     out.data = nullptr; out.sz = 0; out.cap = 0;   // static buffer: nothing to free
     VWITNESS("analyze-returns");
     if (n == 1) { VWITNESS("unit-learnt"); }
+#if defined(SS_NO_THEORY) && SS_NV <= 3
+    if constexpr (fixed_mode != 2) { if (n >= 3) { VWITNESS("learnt-3-literals"); } }   // with 3 variables, no theory reasons and minimisation the third literal is always redundant
+#else
     if (n >= 3) { VWITNESS("learnt-3-literals"); }
-    if (g_nth > 0) { VWITNESS("resolved-with-theory-reason"); }
-    if (tcsz > n) { VWITNESS("minimisation-removed-a-literal"); }
-#if SS_NV >= 4
-    if (tcsz > n && g_nth > 0) { VWITNESS("minimisation-and-theory-reason"); }   // needs >= 4 variables
 #endif
+#ifndef SS_NO_THEORY
+    if (g_nth > 0) { VWITNESS("resolved-with-theory-reason"); }
     if (trsz < g_n) { VWITNESS("trail-backtracked-for-theory-reason"); }
+#endif
+    if constexpr (fixed_mode != 0) { if (tcsz > n) { VWITNESS("minimisation-removed-a-literal"); } }
+#if SS_NV >= 4 && !defined(SS_NO_THEORY)
+    if constexpr (fixed_mode != 0) { if (tcsz > n && g_nth > 0) { VWITNESS("minimisation-and-theory-reason"); } }   // needs >= 4 variables
+#endif
 }
+
+extern "C" void h_analyze() { run_analyze<-1>(); }        // ccmin_mode symbolic in {0,2}
+extern "C" void h_analyze_m0() { run_analyze<0>(); }      // ccmin_mode = 0 (litRedundant not reached)
+extern "C" void h_analyze_m2() { run_analyze<2>(); }      // ccmin_mode = 2
 
 #ifdef SS_DEBUG_ENTRIES
 extern "C" void h_state_only() {
